@@ -1627,7 +1627,7 @@ def _neighbours_from_params(ctx, te0, b, c, X):
     return False
 
 
-def c05(ctx, res):
+def c05(ctx, res, only_list_shape=False):
     r, cg, eff = ctx.roles, ctx.cg, ctx.eff
     te = _te(ctx, True)
     ins, outs = list_primitives(ctx)
@@ -1750,6 +1750,8 @@ def c05(ctx, res):
             res.oblige("C05.3 `%s` links the node between the seal and the current most-recently-used entry" % bp_, not uniq, detail=uniq,
                        key="C05.3:%s:mru-side" % bp_, loc=c.loc, rule="C05.3 promotion at the MRU end", msg="`%s`: %s" % (bp_, "; ".join(uniq)))
     res.floor("C05.3 promotion sites", n_call, 1)
+    if only_list_shape:
+        return
     # ---- 1. who may reach the promotion primitive (call graph; complements the E3 may-ghost for everything that is not &mut self)
     promoting = {"insert", "try_insert", "get", "get_entry", "get_lru", "touch", "mutate"}
     inplace_unlink = [b for b in outs if (b.j.get("inputs") or [{}])[0].get("name") == r.eptr]
